@@ -244,15 +244,15 @@ func replayRoundTrip(raw json.RawMessage) string {
 // ---- corpus enumeration shared by C01/C02/C03/C06/C22/C23 ----
 
 type corpusOpts struct {
-	structDepth   int
-	floatStride   int
-	latlong       int
-	arrayFullMax  int  // arrays up to this many elements get every chunking × split
-	padding       bool // inject padding at every accepted position (C01)
-	comments      bool // inject comments at every CTE-expressible position (C02)
-	customText    bool
-	contextsAll   bool
-	refMaxLen     int // reference family: containers up to this many elements (0 = none)
+	structDepth  int
+	floatStride  int
+	latlong      int
+	arrayFullMax int  // arrays up to this many elements get every chunking × split
+	padding      bool // inject padding at every accepted position (C01)
+	comments     bool // inject comments at every CTE-expressible position (C02)
+	customText   bool
+	contextsAll  bool
+	refMaxLen    int // reference family: containers up to this many elements (0 = none)
 }
 
 // forEachCorpusDoc enumerates the three sweeps. visit gets the document and a class string for signatures.
